@@ -1,0 +1,12 @@
+//go:build !verif
+// +build !verif
+
+// Package verifhook holds verification hooks. Without the `verif` build tag
+// every function is an empty, inlinable no-op.
+package verifhook
+
+// Yield is a scheduling perturbation point (no-op without the verif tag).
+func Yield(site int) {}
+
+// FidRegistered reports a newly issued function ID (no-op without the verif tag).
+func FidRegistered(fid uint32) {}
